@@ -17,7 +17,7 @@ TEXT = {
          "Lean theorem + differential check against load_data"),
  "C06": ("Theorems on the executable store model (one Lean definition per method of phyclone.tree.Tree / TreeNode): the cache invariant (p = prior x product of the clone's data, r = p (.) S(children's cached r), root vector when a clone exists) holds for the empty tree and is preserved by every edit operation and hence along every history of any length over several live handles (cacheOK_step, cacheOK_reachable, cacheOK_reachable_legal); under it every cached vector equals the from-scratch recursion and both cache-read joint densities equal the densities of the abstract tree (rebuild_eq). Correspondence: model vs real Tree after every op of generated edit histories (exact rationals vs floats); oracle: exact recomputation of every cached vector and densities of a rebuilt tree.",
          "Lean theorem (invariant by induction over edit histories) + differential check on edit histories"),
- "C07": ("Theorems on the executable store model: well-formedness (names/indices unique, name<->index maps exactly the payload pairs, _data keyed by clone names or the outlier key and equal to the payload sets, every data point in exactly one place) holds for the empty tree and is preserved by every edit operation under the side conditions of the sampler grammar, hence along every legal history (wf_step, wf_reachable); per-operation data accounting (data_conserved), subtree extraction = clade, subtree and data-point moves conserve the data multiset, labels partition the data. Graph shape (single parent, reachability) is structural in the model and is decided on the real rustworkx graph by the oracle. Correspondence: model vs real Tree after every op of generated histories; oracle: full well-formedness clause list on every live handle, and every sampler invocation (burn-in SMC, PG, subtree PG, data-point, prune-regraft, run-loop iteration; three proposals; outliers on/off) returns a well-formed tree on exactly the input data; retained path reproduces the input tree.",
+ "C07": ("Theorems on the executable store model: well-formedness (names/indices unique, name<->index maps exactly the payload pairs, _data keyed by clone names or the outlier key and equal to the payload sets, every data point in exactly one place) holds for the empty tree and is preserved by every edit operation under the side conditions of the sampler grammar, hence along every legal history (wf_step, wf_reachable); per-operation data accounting (data_conserved), subtree extraction = clade, subtree and data-point moves conserve the data multiset, labels partition the data. Graph shape is proved on an explicit digraph model of the rustworkx calls tree.py makes (forest_*: one parent, reachable from the root, acyclic, preserved by every edit; graph_*: the structural operations are correct abstractions of those call sequences), which is compared with the real graph's node and edge lists after every operation. Correspondence: model vs real Tree after every op of generated histories; oracle: full well-formedness clause list on every live handle, and every sampler invocation (burn-in SMC, PG, subtree PG, data-point, prune-regraft, run-loop iteration; three proposals; outliers on/off) returns a well-formed tree on exactly the input data; retained path reproduces the input tree.",
          "Lean theorem (invariant by induction over edit histories) + differential check on edit histories and sampler invocations"),
  "C15": ("Theorems on the store model and the trace-loop model: for every store satisfying the reachable invariants (WF, Full, CacheOK, Aligned; graph indices with arbitrary gaps) fromDict (toDict s) restores the same forest, names, indices, data map, last-added clone, labels and cached vectors, hence the same joint densities, and editing after a round trip is editing the original (roundtrip_edits_commute); the recorded iterations are the post-burn-in state followed by exactly the iterations i < num_iters with i % thin = 0, in order, cut only by the time limit (trace_schedule, trace_schedule_timed); every entry is built after relabelling and the concentration update, restores to a tree holding every data point once, and its recorded log_p_one is the fixed-root density under the recorded alpha (entry_after_update, entry_consistent, entry_data_complete). Correspondence/oracle: trees reached by edit histories round-tripped through dict, pickle, the gzip trace file and TreeHolder, then edited in lockstep; real traces from run_phyclone_chain and the CLI over a grid of run configurations, every entry recomputed.",
          "Lean theorem (round trip, schedule, entry consistency) + differential check on round trips and real traces"),
